@@ -680,11 +680,13 @@ def union_family(tier):
 REFINE_BASES = {
     "str": (STR, [{"maxLength": 4}, {"minLength": 3}, {"pattern": "^[a-z]+$"}, {"enum": ["a", "bb"]}, {"format": "uuid"}, {"not": {"enum": ["a"]}}]),
     "str_max4": ({"type": "string", "maxLength": 4}, [{"maxLength": 2}, {"minLength": 3}, {"pattern": "^[a-z]+$"}, {"maxLength": 6}]),
-    "enum_abc": ({"type": "string", "enum": ["a", "bb", "ccc"]}, [{"enum": ["a"]}, {"enum": ["bb", "ccc"]}, {"maxLength": 2}, {"not": {"enum": ["a"]}}]),
+    "enum_abc": ({"type": "string", "enum": ["a", "bb", "ccc"]}, [{"enum": ["a"]}, {"enum": ["bb", "ccc"]}, {"maxLength": 2}, {"not": {"enum": ["a"]}},
+                                                                   # a deny list that only PARTLY overlaps the enumeration, and one disjoint from it
+                                                                   {"not": {"enum": ["bb", "zz"]}}, {"not": {"enum": ["zz"]}}]),
     "int": (INT, [{"minimum": 0}, {"maximum": 255}, {"minimum": 1, "maximum": 10}, {"multipleOf": 2}, {"enum": [1, 2]}]),
     "u8": ({"type": "integer", "format": "uint8", "minimum": 0}, [{"minimum": 1}, {"maximum": 10}]),
-    "enum_int": ({"type": "integer", "enum": [1, 2, 3]}, [{"enum": [1, 2]}, {"not": {"enum": [3]}}, {"enum": [3, 4]}]),
-    "enum_num": ({"type": "number", "enum": [0.5, 1, 2.5]}, [{"enum": [0.5, 1]}, {"not": {"enum": [2.5]}}]),
+    "enum_int": ({"type": "integer", "enum": [1, 2, 3]}, [{"enum": [1, 2]}, {"not": {"enum": [3]}}, {"enum": [3, 4]}, {"not": {"enum": [2, 9]}}, {"not": {"enum": [9]}}]),
+    "enum_num": ({"type": "number", "enum": [0.5, 1, 2.5]}, [{"enum": [0.5, 1]}, {"not": {"enum": [2.5]}}, {"not": {"enum": [1, 7]}}]),
     "vec_int": ({"type": "array", "items": INT}, [{"minItems": 1}, {"maxItems": 2}, {"minItems": 2, "maxItems": 2}, {"uniqueItems": True},
                                                   {"items": {"minimum": 0}}]),
     "obj": (obj({"s": STR, "n": INT}, ["s"]), [{"required": ["n"]}, {"properties": {"s": {"maxLength": 2}}}, {"properties": {"extra": BOOL}},
@@ -692,6 +694,8 @@ REFINE_BASES = {
                                                 # extensions adding an UNCONSTRAINED optional member (schema {}, true, or annotations only)
                                                 {"properties": {"note": {}}}, {"properties": {"note": True}}, {"properties": {"note": {"description": "free-form"}}},
                                                 {"properties": {"note": {}, "extra": BOOL}}, {"required": ["note"]}]),
+    # a CLOSED base with patternProperties: a name required by the other operand that only a pattern permits stays required
+    "obj_closed_pat": (dict(obj({"s": STR}, ["s"], additionalProperties=False), patternProperties={"^pay": {}}), [{"required": ["payload"]}, {"properties": {"n": INT}, "required": ["payload"]}]),
     # a base that already has bounds of its own: the refinement's bounds must INTERSECT with them
     "vec_min1": ({"type": "array", "items": INT, "minItems": 1}, [{"minItems": 2, "maxItems": 2}, {"minItems": 2}, {"maxItems": 3}, {"minItems": 0}, {"minItems": 3, "maxItems": 3}]),
     "vec_1_3": ({"type": "array", "items": INT, "minItems": 1, "maxItems": 3}, [{"minItems": 2, "maxItems": 2}, {"maxItems": 5}, {"minItems": 3}, {"maxItems": 1}]),
@@ -716,7 +720,7 @@ def refine_family(tier):
                     ckeys = "+".join(sorted(con))
                     enf = ((bname in ("str", "str_max4", "str_2_4", "enum_abc", "enum_int", "enum_num") and "format" not in con and "minimum" not in con) or (bname == "int" and "enum" in con)
                            or (bname in ("vec_int", "vec_min1") and ckeys == "maxItems+minItems") or (bname == "vec_1_3" and ckeys == "maxItems" and con.get("maxItems") == 1)
-                           or (bname in ("obj", "obj_apT") and ckeys in ("required", "additionalProperties")))
+                           or (bname in ("obj", "obj_apT") and ckeys in ("required", "additionalProperties")) or (bname == "obj_closed_pat" and ckeys == "required"))
                     sh = L("refine[%s:%s%d:%s%s]" % (bname, ckeys, ci, via, ":typed" if typed else ""), {"allOf": [first, c]},
                            ff="uniqueItems" not in con and "multipleOf" not in con and "not" not in con and "format" not in con, enf=enf, fam=True,
                            strish=bname in ("str", "str_max4", "str_2_4", "enum_abc"), defs={"XBase": copy.deepcopy(base)} if via == "ref" else None)
@@ -778,6 +782,13 @@ def string_family(tier):
                 sh = L("strc[min=%s,max=%s,pat=%s]" % (mn, mx, "y" if pat else "n"), s, ff=True, enf=True, strish=True, fam=True)
                 sh["tg"] = {"sc_min": mn, "sc_max": mx, "sc_pat": bool(pat)}
                 out.append(sh)
+                # the same constraints next to an ENUMERATION with members on both sides of each of them
+                if mx != 0:
+                    e = dict(s, enum=["a", "bb", "ccc", "B-1", "dddd"])
+                    sh = L("strc_enum[min=%s,max=%s,pat=%s]" % (mn, mx, "y" if pat else "n"), e, ff=True, enf=True, strish=True, fam=True)
+                    sh["tg"] = {"sc_min": mn, "sc_max": mx, "sc_pat": bool(pat), "sc_enum": True}
+                    sh["sup"] = False
+                    out.append(sh)
     return out
 
 
@@ -789,8 +800,11 @@ LIFT = {
     "obj_x": {"type": "object", "properties": {"x": INT}}, "obj_y_req": {"type": "object", "properties": {"y": STR}, "required": ["y"]},
     "any": {}, "num": {"type": "number"}, "num_enum": {"type": "number", "enum": [1, 2.5, 10]}, "int_enum": {"type": "integer", "enum": [1, 2]}, "bool": BOOL,
     "u8": {"type": "integer", "format": "uint8", "minimum": 0}, "uuid": {"type": "string", "format": "uuid"},
+    # bounds that MEET EXACTLY when the two branches are intersected (min == max is satisfiable)
+    "arr_max1": {"type": "array", "maxItems": 1}, "map_min1": {"type": "object", "additionalProperties": INT, "minProperties": 1},
+    "map_max1": {"type": "object", "additionalProperties": INT, "maxProperties": 1},
 }
-LIFT_QUICK = ["int", "str", "enum_ab", "enum_bc", "arr_int", "arr_min1", "tup2", "obj_x", "any", "num", "num_enum", "int_enum"]
+LIFT_QUICK = ["int", "str", "enum_ab", "enum_bc", "arr_int", "arr_min1", "tup2", "obj_x", "any", "num", "num_enum", "int_enum", "arr_max1", "map_min1", "map_max1"]
 
 
 def lift_family(tier):
